@@ -48,12 +48,28 @@ LegacyFaithful == {
 LegacyFixed == LegacyFaithful \ {"lit_untyped_in", "lit_generic_fallback", "ann_not_gt", "arity_raises",
                                     "tvar_branch_opaque"}
 Mutants == {"issubclass_swapped", "union_any_for_all", "lit_ignores_member_types", "tuple_zip_short"}
+\* spec mutants of the wrapper cache of doormeta (MC_Subhint.tla): "no_wrapper_cache", and "repr_key" = the cache
+\* keyed on repr(hint) instead of the hint (repr twins then share one wrapper)
 
 (* ------------------------------------------------ hint kinds beyond Semantics *)
 HNew(c)      == H("newtype", c, <<>>, <<>>)           \* NewType("NT_c", c)
 HTVar(s, hs) == H("tvar", s, hs, <<>>)                \* s = "free" | "bound" | "constr"
 HCall(ps, r) == H("call", "fixed", ps \o <<r>>, <<>>) \* Callable[[p1..pn], r]
 HCallAny(r)  == H("call", "ellipsis", <<r>>, <<>>)    \* Callable[..., r]
+
+(* ------------------------------------------------------------- repr twins *)
+\* TypeVars, NewTypes and classes have identity: two of them are different hints even when they carry the same
+\* name and therefore the same repr().  Named(h, n) gives a TypeVar / NewType the explicit name n (hints built
+\* without it have process-unique names); HCls("K:int") and HCls("K:str") are two classes made by one factory.
+\* ReprOf(h) is what repr() shows: for named things the name only - their bound / constraints / base are
+\* invisible.  Two distinct hints with equal ReprOf are "repr twins".
+Named(h, n) == [h EXCEPT !.m = <<Atom("name", n)>>]
+IsNamed(h)  == h.k \in {"tvar", "newtype"} /\ h.m # <<>>
+RECURSIVE ReprOf(_)
+ReprOf(h) ==
+  IF IsNamed(h) THEN H(h.k, "", <<>>, h.m)
+  ELSE IF h.k = "cls" /\ h.s \in {"K:int", "K:str"} THEN HCls("K")
+  ELSE [h EXCEPT !.a = [i \in DOMAIN h.a |-> ReprOf(h.a[i])]]
 
 RECURSIVE HasKindX(_, _)
 HasKindX(h, ks) == h.k \in ks \/ \E i \in DOMAIN h.a : HasKindX(h.a[i], ks)
@@ -143,7 +159,10 @@ AbcSup(c) ==
     [] c = "Iterator" -> {"Iterable"}
     [] c = "Generator" -> {"Iterable", "Iterator"}
     [] OTHER -> {}
-NTBase(c) == CASE c = "NT:int" -> "int" [] c = "NT:str" -> "str" [] c = "NT:A" -> "A" [] OTHER -> ""
+\* classes derived from a class of the universe: the synthetic class of a NewType ("NT:c") and the classes
+\* K(c) made by one factory (same module and qualified name, hence the same repr(), different bases)
+NTBase(c) == CASE c = "NT:int" -> "int" [] c = "NT:str" -> "str" [] c = "NT:A" -> "A"
+               [] c = "K:int" -> "int" [] c = "K:str" -> "str" [] OTHER -> ""
 \* issubclass(c, d) on origins
 RECURSIVE OSub(_, _)
 OSub(c, d) ==
